@@ -594,6 +594,17 @@ func (ld *Loaded) analyseRunPoll(rs *runShape, bad func(ob, msg string, a ...int
 	}
 }
 
+// relyOnRunProtocol: Run's functional proof treats the cells it shares with
+// its watcher as arbitrary, except that the published error is non-nil once
+// the flag is seen (rely).  That rely is what C13's protocol obligations
+// establish for the mechanisms they know; for any other mechanism the proof
+// of Run rests on nothing and the check is undecided.
+func (r *Run) relyOnRunProtocol(ld *Loaded) {
+	if rs := ld.analyseRun(); len(rs.unrecognised) > 0 {
+		r.Undecided = append(r.Undecided, "Run's proof relies on the cancellation protocol between Run and its watcher, which the structural analysis (C13) does not recognise here: "+strings.Join(rs.unrecognised, "; "))
+	}
+}
+
 func (r *Run) structural(ld *Loaded, name string, probs []string, okNote string) {
 	o := &OblResult{Name: "z80.(*CPU)." + name, Layer: "P", Backend: "SSA/CFG analysis"}
 	if len(probs) == 1 && strings.HasPrefix(probs[0], "UNRECOGNISED: ") {
@@ -813,6 +824,7 @@ func (ld *Loaded) runHaltReturns2() (probs []string, found bool) {
 
 func init() {
 	checks["C08"] = func(ld *Loaded, r *Run) {
+		r.relyOnRunProtocol(ld)
 		r.verifyHelpers(ld, func(c *Contract) bool { return !ownsProp(c, "C08") })
 		r.establishStepFrame(ld)
 		r.verifyHelpers(ld, propFilter("C08"))
